@@ -64,6 +64,8 @@ class Check:
 
     def part(self, name, **kw):
         self.cov['parts'].setdefault(name, {}).update(kw)
+        print(f'[{time.time() - self.t0:7.1f}s] {name}: ' + ', '.join(f'{k}={v}' for k, v in kw.items())[:300])
+        sys.stdout.flush()
 
     def note(self, msg):
         print('NOTE ' + msg)
@@ -73,7 +75,7 @@ class Check:
     def violation(self, key, what, payload=None):
         """Report one violation class (deduplicated by key).  A key listed in known_findings.txt is
         printed as KNOWN-FINDING and does not fail the check."""
-        key = re.sub(r'\s+', '_', str(key))
+        key = re.sub(r'[^A-Za-z0-9_.=+<>-]+', '_', str(key))
         if key in self._vkeys:
             return
         self._vkeys.add(key)
